@@ -26,7 +26,8 @@ func (s *skipListIndex) put(key []byte, pos *datafile.DataPos) *datafile.DataPos
 	if oldItem != nil {
 		oldValue = oldItem.Value.(*datafile.DataPos)
 	}
-	s.list.Set(key, pos)
+	// 索引保存 key 的副本, 不持有调用方的切片
+	s.list.Set(append([]byte(nil), key...), pos)
 	return oldValue
 }
 
